@@ -36,7 +36,7 @@ def gen_class(rng, name, depth, counter, broken=False):
             kind = rng.choice(['func', 'func', 'classmethod', 'staticmethod'])
             members.append([nm, [kind, rng.random() < 0.7, rng.random() < 0.12, rng.random() < 0.15]])
         elif r < 0.6:
-            members.append([nm, ['property', rng.random() < 0.6, rng.random() < 0.6, rng.random() < 0.6]])   # getter annotated?, setter?, setter annotated?
+            members.append([nm, ['property', rng.random() < 0.6, rng.random() < 0.6, rng.random() < 0.6, rng.choice([None, None, 'nodoc', 'other'])]])   # getter annotated?, setter?, setter annotated?
         elif r < 0.75 and depth > 0:
             members.append([f'N{len(members)}', ['nested', gen_class(rng, f'N{len(members)}', depth - 1, counter, broken)]])
         elif r < 0.85:
